@@ -36,6 +36,7 @@ type Step struct {
 	Base    int64  `json:"base,omitempty"`   // trimat / trimrec: threshold in seconds the jitter is relative to
 	Errno   string `json:"errno,omitempty"`  // trim / trimat / trimrec: the Nth removal of this Trim fails with this error
 	Nth     int    `json:"nth,omitempty"`
+	During  int64  `json:"during,omitempty"`   // trim steps: the clock moves forward by this many seconds while the Trim is scanning (at its Nth directory listing)
 	FaultOp string `json:"fault_op,omitempty"` // "" = the Nth removal fails; open | read = the first open / read of the trim record fails (the record is unreadable)
 }
 
@@ -197,6 +198,11 @@ func genPlan(t *rapid.T, tier string) any {
 				s.Nth = 0
 			}
 		}
+		if (s.Kind == "trim" || s.Kind == "trimat" || s.Kind == "trimrec") && s.Errno == "" && rapid.IntRange(0, 4).Draw(t, "during") == 0 {
+			// time passes while the trim scans (a slow disk, a suspended laptop, a clock correction)
+			s.During = rapid.SampledFrom([]int64{1, 121, 600, 59 * 60}).Draw(t, "duringsecs")
+			s.Nth = rapid.SampledFrom([]int{0, 1, 16, 17, 100, 255}).Draw(t, "duringat")
+		}
 		p.Steps = append(p.Steps, s)
 	}
 	return p
@@ -258,7 +264,7 @@ func run(t *testing.T, plan any, keep bool) *simcheck.Outcome {
 	// returned and by the steps that rewrite trim.txt), not whatever the file holds right now
 	modelRec := ""
 	modelRecOK := false
-	crashes, rmFaults, recFaults := 0, 0, 0
+	crashes, rmFaults, recFaults, clockDuring := 0, 0, 0, 0
 	trimsDue, trimsNotDue, removed, keptNearBoundary := 0, 0, 0, 0
 	jumped := false
 
@@ -462,10 +468,27 @@ func run(t *testing.T, plan any, keep bool) *simcheck.Outcome {
 					if err != nil && st.FaultOp == "" {
 						state = "failed" // a Trim that reports failure claims nothing beyond the keep and foreign-file clauses
 					}
-				} else if err := c.Trim(); err != nil {
-					out.Violate("trim-error", "%s: Trim failed in a fault-free run: %v", where, err)
-					return
+				} else {
+					if st.During > 0 {
+						listings := 0
+						simos.OnOp(func(proc int, op, class, path string) {
+							if op == "readdir" {
+								if listings == st.Nth {
+									simtime.Advance(time.Duration(st.During) * time.Second)
+									clockDuring++
+								}
+								listings++
+							}
+						})
+					}
+					err := c.Trim()
+					simos.OnOp(nil)
+					if err != nil {
+						out.Violate("trim-error", "%s: Trim failed in a fault-free run: %v", where, err)
+						return
+					}
 				}
+				end := simtime.Now() // later than now if time passed during the Trim
 				after := snapshot(dir)
 				if crashed && state != "failed" {
 					state = "crashed" // only the keep and foreign-file clauses apply to an interrupted trim
@@ -481,7 +504,10 @@ func run(t *testing.T, plan any, keep bool) *simcheck.Outcome {
 					names = append(names, k)
 				}
 				sort.Strings(names)
-				keepLimit := now.Add(-5 * 24 * time.Hour)
+				// when the clock moved during the Trim, "the last five days" is counted from its end (nothing that
+				// any reading of the clock makes recent may go) and "unused for longer than five days and an hour"
+				// from its start (everything that every reading makes stale must go)
+				keepLimit := end.Add(-5 * 24 * time.Hour)
 				dropLimit := now.Add(-5*24*time.Hour - time.Hour)
 				for _, k := range names {
 					isEntry := len(filepath.Dir(k)) == 2 && (strings.HasSuffix(k, "-a") || strings.HasSuffix(k, "-d"))
@@ -529,8 +555,8 @@ func run(t *testing.T, plan any, keep bool) *simcheck.Outcome {
 					}
 				case "due":
 					trimsDue++
-					if got := after["trim.txt"]; got != strconv.FormatInt(now.Unix(), 10) {
-						out.Violate("trim-record", "%s: trim ran at unix %d but the record holds %q", where, now.Unix(), got)
+					if got, perr := strconv.ParseInt(after["trim.txt"], 10, 64); perr != nil || got < now.Unix() || got > end.Unix() {
+						out.Violate("trim-record", "%s: trim ran from unix %d to %d but the record holds %q", where, now.Unix(), end.Unix(), after["trim.txt"])
 					}
 				}
 				for k := range files {
@@ -555,7 +581,7 @@ func run(t *testing.T, plan any, keep bool) *simcheck.Outcome {
 				}
 				switch state {
 				case "due":
-					modelRec, modelRecOK = strconv.FormatInt(now.Unix(), 10), true // this trim completed
+					modelRec, modelRecOK = after["trim.txt"], true // this trim completed (the record holds an instant between its start and its end)
 				case "future", "failed":
 					// the statement is silent on what happened: follow the file
 					if b, err := os.ReadFile(recPath); err == nil {
@@ -587,6 +613,7 @@ func run(t *testing.T, plan any, keep bool) *simcheck.Outcome {
 	out.Count("fired_trim_process_halted", int64(rep.Halts))
 	out.Count("fired_remove_failed_during_trim", int64(rmFaults))
 	out.Count("fired_trim_record_unreadable", int64(recFaults))
+	out.Count("fault_clock_moved_during_trim", int64(clockDuring))
 	out.Count("trims_due", int64(trimsDue))
 	out.Count("trims_not_due", int64(trimsNotDue))
 	out.Count("entry_files_removed_by_trim", int64(removed))
@@ -614,7 +641,7 @@ var harness = &simcheck.Harness{
 	Level:    "exploration",
 	Rule: "rapid draws a history of up to 16 (quick) / 30 (thorough) steps: Put, Get, GetBytes, GetFile, OutputFile, clock advances drawn mostly from boundary values " +
 		"(1s ... 24h+-1m, 5d+-1m, 5d1h+-1s/1m, 30d), Trim, trim-record rewrites (valid with recent/old/future offsets, garbage, empty, missing), foreign files, " +
-		"directly aged entry files, and (a quarter of the plans) backward clock jumps; plus macro steps (look an entry up after a gap of under two hours; move the clock to an entry file's last use + 5d or 5d1h +- jitter and Trim; move it to the trim record + 24h +- jitter and Trim; a Trim whose process halts before its k-th file operation; a Trim one of whose removals fails with EPERM/EBUSY/EIO/EACCES - that file may stay, every other stale entry must still go; a Trim during which the trim record cannot be opened or read - a due trim must still do all its work), half the plans with all action ids in one cache subdirectory, a third starting with a store / two lookups / trim-at-threshold scenario, foreign non-empty directories with entry-like names inside an entry subdirectory; non-trivial = the history contains a Trim; " +
+		"directly aged entry files, and (a quarter of the plans) backward clock jumps; plus macro steps (look an entry up after a gap of under two hours; move the clock to an entry file's last use + 5d or 5d1h +- jitter and Trim; move it to the trim record + 24h +- jitter and Trim; a Trim whose process halts before its k-th file operation; a Trim one of whose removals fails with EPERM/EBUSY/EIO/EACCES - that file may stay, every other stale entry must still go; a Trim during which the trim record cannot be opened or read - a due trim must still do all its work; a Trim during whose scan the clock moves forward by 1 s to 59 min), half the plans with all action ids in one cache subdirectory, a third starting with a store / two lookups / trim-at-threshold scenario, foreign non-empty directories with entry-like names inside an entry subdirectory; non-trivial = the history contains a Trim; " +
 		"distinct by the hash of the intercepted file-operation sequence",
 	Gen:     genPlan,
 	NewPlan: func() any { return &Plan{} },
